@@ -33,7 +33,7 @@ def clean_inputs(ir, rng, n, tries=None, size_cap=6, data_mode=None, par=False):
     for t in range(tries):
         if len(out) >= n:
             break
-        spec = gen_input(ir, rng, size_cap=size_cap, data_mode=data_mode or ("distinct" if t % 3 else "small"), boundary=(t < 2))
+        spec = gen_input(ir, rng, size_cap=size_cap, data_mode=data_mode or ("distinct" if t % 3 else "small"), boundary=(t < 3))
         if spec is None:
             continue
         vals, cfg = spec.materialise()
